@@ -284,3 +284,31 @@ pub fn crc32c_jubako(data: &[u8]) -> u32 {
     }
     crc
 }
+
+
+/// Turn a manifest the library wrote into one "another writer" could have written: the reserved
+/// `packGroup` byte (offset 35 of every pack description) gets a non-zero value, each touched
+/// description gets a fresh block CRC and the manifest a fresh global hash (blake3 over the pack
+/// up to its check block, with bytes 38..256 of every description read as zero). The result is a
+/// valid manifest that the library's own creator can never produce. `file` holds the manifest
+/// pack at `mspan`. The caller must verify the result with the library before using it.
+pub fn foreign_writer_manifest(file: &mut [u8], mspan: &crate::layout::PackSpan) {
+    let start = mspan.start as usize;
+    for (k, slot) in mspan.info_slots.iter().enumerate() {
+        let a = start + *slot as usize;
+        file[a + 35] = [7u8, 0xF0, 1, 0x80][k % 4];
+        let crc = crc32c_jubako(&file[a..a + 252]);
+        file[a + 252..a + 256].copy_from_slice(&crc.to_be_bytes());
+    }
+    let end = start + mspan.check_info_pos as usize;
+    let mut masked = file[start..end].to_vec();
+    for slot in &mspan.info_slots {
+        let a = *slot as usize;
+        masked[a + 38..a + 256].fill(0);
+    }
+    let hash = blake3::hash(&masked);
+    file[end] = 1; // blake3
+    file[end + 1..end + 33].copy_from_slice(hash.as_bytes());
+    let crc = crc32c_jubako(&file[end..end + 33]);
+    file[end + 33..end + 37].copy_from_slice(&crc.to_be_bytes());
+}
